@@ -270,7 +270,9 @@ class Check:
         ensure_dirs()
         lines = []
         for cls, (k, what) in self.known_hit.items():
-            lines.append(f"KNOWN-FINDING: property={self.pid} {k.get('id', cls)} {k.get('summary', what)}")
+            ln = f"KNOWN-FINDING: property={self.pid} {k.get('id', cls)} {k.get('summary', what)}"
+            if ln not in lines:     # several failure classes may map to one listed finding: one line per finding
+                lines.append(ln)
         rc = 0
         replays = []
         if self.violations:
